@@ -55,6 +55,11 @@ pub struct SignCase {
     /// indices into `signers` (monotone mapping), one sign_json call each
     pub history: Vec<u16>,
     pub tamper: Tamper,
+    /// 0: object as generated; 1..=6: padded so that the signed canonical JSON is 65535 + (pad - 3)
+    /// bytes long (the event size limit, which does not apply to sign_json / verify_json);
+    /// 7, 8: padded to roughly 100 kB / 250 kB
+    #[serde(default)]
+    pub pad: u8,
 }
 
 fn keypair(s: &Signer) -> Result<Ed25519KeyPair, String> {
@@ -186,6 +191,23 @@ pub fn oracle(c: &SignCase, cx: &mut CaseCtx) -> Result<(), String> {
     model.remove("unsigned");
     if let Some(u) = &c.unsigned {
         model.insert("unsigned".into(), u.clone());
+    }
+    if c.pad != 0 {
+        model.remove("zz_pad");
+        let base = {
+            let mut m = model.clone();
+            m.insert("zz_pad".into(), V::Str(String::new()));
+            signed_part(&m).len()
+        };
+        let target = match c.pad {
+            1..=6 => 65535 + c.pad as usize - 3,
+            7 => 100_000,
+            _ => 250_000,
+        };
+        model.insert("zz_pad".into(), V::Str("p".repeat(target.saturating_sub(base))));
+        let len = signed_part(&model).len();
+        cx.class_if(len > 65535, "signed_json_larger_than_65535_bytes");
+        cx.class_if(len == 65535 || len == 65536, "signed_json_at_event_size_limit");
     }
     let mut obj = to_obj(&model);
     let mut used: Vec<&Signer> = vec![];
@@ -547,17 +569,17 @@ pub fn run(ck: &mut Check) {
         "sign_verify_histories",
         n,
         || {
-            (object(), prop::option::of(cjson::value(2)), prop::collection::vec(signer(), 1..4), prop::collection::vec(any::<u16>(), 1..6), tamper(), any::<bool>()).prop_map(|(object, unsigned, mut signers, history, tamper, share_entity)| {
+            (object(), prop::option::of(cjson::value(2)), prop::collection::vec(signer(), 1..4), prop::collection::vec(any::<u16>(), 1..6), tamper(), any::<bool>(), prop_oneof![30 => Just(0u8), 1 => 1u8..=8]).prop_map(|(object, unsigned, mut signers, history, tamper, share_entity, pad)| {
                 if share_entity && signers.len() > 1 {
                     // same entity with two key versions
                     signers[1].entity = signers[0].entity.clone();
                 }
-                SignCase { object, unsigned, signers, history, tamper }
+                SignCase { object, unsigned, signers, history, tamper, pad }
             })
         },
         oracle,
     );
-    for cls in ["multi_signature", "ring_template_key", "pkcs8_v2_key", "with_unsigned", "tamper_signature_bit", "tamper_key_bit", "tamper_signed_content", "neutral_unsigned_changed", "tamper_key_missing", "tamper_only_unsupported_signature"] {
+    for cls in ["multi_signature", "ring_template_key", "pkcs8_v2_key", "with_unsigned", "tamper_signature_bit", "tamper_key_bit", "tamper_signed_content", "neutral_unsigned_changed", "tamper_key_missing", "tamper_only_unsupported_signature", "signed_json_larger_than_65535_bytes", "signed_json_at_event_size_limit"] {
         ck.floor("sign_verify_histories", cls, 100);
     }
     let n = ck.n(4_000, 100_000);
